@@ -158,6 +158,45 @@ CLAIMED.update({
     },
 })
 
+CLAIMED.update({
+    'C16': {
+        'text': ('Lean 4 on the sampler model, for ALL decision lists: the translated complement lookup returns exactly the '
+                 'offered complementary descriptors ($ with $ of equal order digit, > with < of identical label and order), a '
+                 'growth step adds the fragment copy (template atoms, fresh keys, running membership) and exactly one bond '
+                 'carrying the descriptor pair and the order digit, node set preserved, canonical numbering (L-sort), valence '
+                 'completeness via C09. Tied to the code by replaying the recorded random decisions of every real run into '
+                 'the model (exact molecule dump) + structural oracle.'),
+        'note': RESOLVE_NOTE + 'random.choice(s) are parameters (contract G0 checked per call).',
+        'design': '§7 C16',
+    },
+    'C17': {
+        'text': ('Lean 4: stop rule of the growth loop as a relation (sum reaches the target, every proper prefix is below it, '
+                 'nothing added iff the start is not below), the model loop is such a growth; a descriptor with reactivity 0 or '
+                 'missing from a non-empty table is never chosen, empty table = uniform choice; terminal handling of the '
+                 'source atom. Seed reproducibility concerns the process-global RNG and is validated on repeated / '
+                 'interleaved / cross-process construct-and-sample histories (partial by nature).'),
+        'note': RESOLVE_NOTE + 'Masses are compared as exact rationals of the Python floats; the Mersenne Twister is outside the model.',
+        'design': '§7 C17',
+    },
+    'C18': {
+        'text': ('Lean 4: atom indices follow node iteration order, the write-back stores RDKit atom i on the i-th node for any '
+                 'keys (lookup theorem under distinct keys), bond-type table inverted by GetBondTypeAsDouble on all mapped '
+                 'orders, bead = weight-normalised mean: translation equivariance over any field, dependence on own atoms only. '
+                 'RDKit chemistry/embedding and floating point are external: validated with RDKit in the loop (stored positions '
+                 'predicted exactly, beads at 1e-9) (partial).'),
+        'note': 'Trusted: Lean kernel + Mathlib (axioms propext, Classical.choice, Quot.sound), translate.py (bond table), harness; RDKit contract R0; finding K4 listed.',
+        'design': '§7 C18',
+    },
+    'C19': {
+        'text': ('Lean 4 over the reals, arbitrary node types and normed spaces: after rescaling the mean bond length equals '
+                 'the requested length, distinct bonded nodes stay distinct, mean positive when bonded nodes are apart, all '
+                 'target distances positive (bond = 1). Layout engines (contract Y0) and IEEE rounding external: validated with '
+                 'the engines in the loop, Float model reproduces distance table and rescaled positions at 1e-9 (partial).'),
+        'note': 'Trusted: Lean kernel + Mathlib (axioms propext, Classical.choice, Quot.sound), harness; networkx layout engines are parameters.',
+        'design': '§7 C19',
+    },
+})
+
 PENDING_REASON = ('not claimed yet: model/theorems for this property are still being built in this round '
                   '(DESIGN §11 staging); no check is registered until it decides the property soundly')
 
